@@ -465,7 +465,8 @@ def _run(pid, mod, tier, seed, replay, n_override, scratch, t0, violations, know
 
     # 5. shrink + report
     reported = 0
-    for (o, g, m, detail) in bad_ops[:3]:
+    fast = bool(os.environ.get("VERIF_NOSHRINK"))      # tools/seeded_matrix.py: the first failing input, as generated
+    for (o, g, m, detail) in bad_ops[:1 if fast else 3]:
         status0 = mod.judge(o, g, m)[0]
 
         def still_fails(cands):
@@ -486,7 +487,7 @@ def _run(pid, mod, tier, seed, replay, n_override, scratch, t0, violations, know
                     return i
             return None
         try:
-            small = shrink(dict(o), still_fails) if getattr(mod, "SHRINK", True) and status0 == "violation" and not replay else o
+            small = shrink(dict(o), still_fails) if getattr(mod, "SHRINK", True) and status0 == "violation" and not replay and not fast else o
         except Exception as e:  # shrinking is best effort
             notes.append("shrink failed: %r" % (e,))
             small = o
